@@ -270,7 +270,7 @@ theorem push_conns (s : State) (token : Token) (c : ConnId) : (push s token c).c
       · rw [h1, h0]
       · show s1.conns = s.conns; rw [h1, h0]
 
-theorem newConn_ready {s : State} (h : Ready s) (c : Checkout) (alpn : Bool) (hfresh : s.conns s.nextConn = none) :
+theorem newConn_ready {s : State} (h : Ready s) (c : Checkout) (alpn : Negotiated) (hfresh : s.conns s.nextConn = none) :
     Ready (newConn s c alpn).1 ∧ NotBusy (newConn s c alpn).1 (newConn s c alpn).2 := by
   have hs := newConn_sub s c alpn hfresh
   unfold newConn at hs ⊢
